@@ -560,6 +560,347 @@ Section RawOps.
       destruct H as (_ & _ & _ & _ & _ & _ & _ & _ & Hno). destruct (Hno Hg) as [-> Em].
       split; [reflexivity|]. split; [reflexivity|]. split; [exact Em|]. exists s. reflexivity.
   Qed.
+
+  (* ---------------------------------------------------------------------------------------- *)
+  (* S5: shrink_to                                                                              *)
+  (* ---------------------------------------------------------------------------------------- *)
+  (* a layout that exists for some number of buckets exists for every smaller number: this is
+     why shrink_to cannot hit the capacity-overflow panic *)
+  Lemma round_up_mono x y a : (0 < a)%Z -> (x <= y)%Z -> (round_up x a <= round_up y a)%Z.
+  Proof.
+    intros Ha Hxy. unfold round_up.
+    pose proof (Z.div_mod (x + a - 1) a ltac:(lia)) as Hx.
+    pose proof (Z.div_mod (y + a - 1) a ltac:(lia)) as Hy.
+    pose proof (Z.div_le_mono (x + a - 1) (y + a - 1) a Ha ltac:(lia)) as Hd.
+    assert (a * ((x + a - 1) / a) <= a * ((y + a - 1) / a))%Z by (apply Z.mul_le_mono_nonneg_l; lia).
+    lia.
+  Qed.
+
+  Lemma layout_result_mono GWz size a b b' : (0 <= size)%Z -> (0 < a)%Z -> (0 <= b' <= b)%Z ->
+    layout_result GWz size a b <> None -> layout_result GWz size a b' <> None.
+  Proof.
+    intros Hs Ha Hb. unfold layout_result. cbv zeta.
+    assert (Hraw : (size * b' <= size * b)%Z) by (apply Z.mul_le_mono_nonneg_l; lia).
+    pose proof (round_up_mono (size * b') (size * b) a Ha Hraw) as Hru.
+    destruct (Z.ltb_spec (size * b + (a - 1)) (2 ^ 64)) as [H1|H1]; cbn [andb]; [|congruence].
+    destruct (Z.leb_spec (round_up (size * b) a + (b + GWz)) (isize_max - (a - 1))) as [H2|H2]; [|congruence].
+    intros _.
+    destruct (Z.ltb_spec (size * b' + (a - 1)) (2 ^ 64)) as [H3|H3]; [|lia]. cbn [andb].
+    destruct (Z.leb_spec (round_up (size * b') a + (b' + GWz)) (isize_max - (a - 1))) as [H4|H4]; [discriminate|lia].
+  Qed.
+
+  Lemma layout_for_smaller n k k' : zn n = (2 ^ k)%Z -> (0 <= k' <= k)%Z -> (k <= 62)%Z ->
+    layout_for B tsize talign n <> None -> layout_for B tsize talign (nz (2 ^ k')) <> None.
+  Proof.
+    intros Hn Hk' Hk. unfold layout_for.
+    destruct (ctrl_align_pow2 B HW tsize talign Hta) as (j & Hj & Ej & HGj).
+    rewrite lay_size_eq, Ej, Hn, (proj2 (nz_pow2 k' ltac:(lia))).
+    rewrite !calculate_layout_for_spec by (try exact (sac_GW_Z B HW); try lia; exact Hts).
+    pose proof (layout_result_mono (zn GW) tsize (2 ^ j) (2 ^ k) (2 ^ k') ltac:(lia)
+                  (pow2_pos j ltac:(lia))
+                  (conj (Z.lt_le_incl _ _ (pow2_pos k' ltac:(lia))) (pow2_le_mono k' k ltac:(lia)))) as Hmono.
+    destruct (layout_result (zn GW) tsize (2 ^ j) (2 ^ k)) as [[[l a] o]|]; [|intros C; congruence].
+    intros _. specialize (Hmono ltac:(discriminate)).
+    destruct (layout_result (zn GW) tsize (2 ^ j) (2 ^ k')) as [[[l' a'] o']|]; [discriminate|congruence].
+  Qed.
+
+  (* the request ms, which needs mb buckets, fewer than t has: no capacity overflow *)
+  Lemma shrink_no_overflow t ms mb :
+    SafeWF B T t -> Allocated B T tsize talign t -> (1 <= ms < 2 ^ 64)%Z ->
+    ctb B tsize talign ms = Some mb -> (mb < zn (nb T t))%Z ->
+    ~ overflow_cond B tsize talign ms.
+  Proof.
+    intros Hsafe (Hm & len & al & off & El) Hms Ectb Hlt (_ & [C | (b & Eb & Elb)]); [congruence|].
+    rewrite Ectb in Eb. injection Eb as <-.
+    pose proof (capacity_to_buckets_spec (zn GW) ms (lay_size B tsize talign) (ctrl_align B tsize talign)
+                  (sac_GW_Z B HW) Hms ltac:(rewrite lay_size_eq; lia)) as Hspec.
+    fold (ctb B tsize talign ms) in Hspec. rewrite Ectb in Hspec.
+    destruct Hspec as (_ & (k' & Hk' & ->) & _).
+    destruct (SafeWF_alloc B T t Hsafe Hm) as (HS & _).
+    destruct (MaskOK_zn _ (Shape_MaskOK B T t HS)) as (k & Hk & E & _).
+    change (zn (S (mask t))) with (zn (nb T t)) in E. rewrite E in Hlt.
+    assert (Hkk : (k' < k)%Z).
+    { destruct (Z.lt_ge_cases k' k) as [|Hge]; [assumption|].
+      pose proof (pow2_le_mono k k' ltac:(lia)). lia. }
+    apply (layout_for_smaller (nb T t) k k' E ltac:(lia) ltac:(lia)); [rewrite El; discriminate|exact Elb].
+  Qed.
+
+  (* the events of shrink_to: nothing; or the block is freed and the singleton is left; or a new,
+     smaller block is allocated (with the layout of its bucket count) and the old one is freed.
+     No destructor runs. *)
+  Definition ShrinkEvs (t t' : table T) (evs : list (event T)) : Prop :=
+    (t' = t /\ evs = []) \/
+    (t' = new_table B T /\ FreeOld B T tsize talign t evs) \/
+    (exists len al off fevs,
+       layout_for B tsize talign (nb T t') = Some (len, al, off) /\ ValidLayout len al /\
+       evs = EvAlloc len al :: fevs /\ FreeOld B T tsize talign t fevs).
+
+  Definition shrink_post (t : table T) (min_size : Z) (alloc_refuses : bool)
+             (r : res (table T * list (event T) * bool)) : Prop :=
+    match r with
+    | Ok (t', evs, false) =>
+        SafeWF B T t' /\ TOwn t' /\
+        Permutation (occupants T t') (occupants T t) /\ items t' = items t /\
+        nb T t' <= nb T t /\
+        (Z.max (items t) (Z.min min_size (capacity T t)) <= capacity T t')%Z /\
+        (items t = 0%Z /\ min_size = 0%Z -> t' = new_table B T) /\
+        (nb T t' = nb T t -> t' = t /\ evs = []) /\
+        ShrinkEvs t t' evs
+    | Ok (t', evs, true) =>
+        t' = t /\ (exists e, In e (occupants T t) /\ hasher e = None) /\
+        exists len al, evs = [EvAlloc len al; EvFree len al] /\ ValidLayout len al
+    | Fail AbortAlloc => alloc_refuses = true
+    | Fail _ => False
+    end.
+
+  Lemma shrink_noop t min_size alloc_refuses :
+    SafeWF B T t -> TOwn t -> Z.max (items t) min_size <> 0%Z ->
+    shrink_post t min_size alloc_refuses (Ok (t, [], false)).
+  Proof.
+    intros Hsafe HA Hnz. cbn [shrink_post].
+    destruct (safe_counts B T t Hsafe) as (Hi0 & Hg0 & _).
+    pose proof (capacity_eq B T t Hsafe) as Ecap.
+    split; [exact Hsafe|]. split; [exact HA|]. split; [apply Permutation_refl|]. split; [reflexivity|].
+    split; [apply Nat.le_refl|]. split; [lia|]. split; [intros (E1 & E2); lia|].
+    split; [intros _; split; reflexivity|]. left. split; reflexivity.
+  Qed.
+
+  (* dropping a table without elements: no destructor runs, the block (if any) is freed *)
+  Lemma drop_empty_table t : SafeWF B T t -> TOwn t -> items t = 0%Z ->
+    exists evs, drop_inner_table B T tsize talign needs_drop drop_ok t = Ok (evs, true) /\
+      FreeOld B T tsize talign t evs.
+  Proof.
+    intros Hsafe HA Hit.
+    destruct (drop_inner_table_spec B T HW HB tsize talign Hts Hta needs_drop drop_ok t Hsafe HA)
+      as (evs & ok & E & Hsing & Halloc).
+    destruct (Nat.eq_dec (mask t) 0) as [Hm|Hm].
+    - destruct (Hsing Hm) as (-> & ->). exists []. split; [exact E|]. left. split; [exact Hm|reflexivity].
+    - destruct (Halloc Hm) as (len & al & off & dr & El & Hv & _ & _ & Htriv & _ & Eevs).
+      destruct (Htriv (or_intror Hit)) as (-> & ->). cbn [app] in Eevs. subst evs.
+      exists [EvFree len al]. split; [exact E|]. right. split; [exact Hm|].
+      exists len, al, off. split; [exact El|]. split; [reflexivity|exact Hv].
+  Qed.
+
+  Theorem shrink_to_spec t min_size alloc_refuses :
+    SafeWF B T t -> TOwn t -> (0 <= min_size < 2 ^ 64)%Z ->
+    shrink_post t min_size alloc_refuses
+      (shrink_to B T tsize talign needs_drop drop_ok hasher t min_size alloc_refuses).
+  Proof.
+    intros Hsafe HA Hmin.
+    destruct (safe_counts B T t Hsafe) as (Hi0 & Hg0 & Hsum & Hcapnb & Hnb62).
+    pose proof (capacity_eq B T t Hsafe) as Ecap.
+    unfold shrink_to. cbv zeta.
+    set (ms := Z.max (items t) min_size).
+    assert (Hms : (0 <= ms < 2 ^ 64)%Z).
+    { unfold ms. rewrite two_p_62 in Hnb62. rewrite two_p_64 in *. lia. }
+    destruct (Z.eqb_spec ms 0) as [E0|Hnz].
+    - (* nothing to keep: free everything, back to the singleton *)
+      assert (Hit : items t = 0%Z) by (unfold ms in E0; lia).
+      assert (Hmin0 : min_size = 0%Z) by (unfold ms in E0; lia).
+      destruct (drop_empty_table t Hsafe HA Hit) as (evs & E & Hfr).
+      rewrite E. cbn [bind negb shrink_post].
+      split; [apply (new_table_safe B T)|]. split; [apply TOwn_new_table|].
+      split; [rewrite (occupants_items0 B T HW t Hsafe Hit); apply Permutation_refl|].
+      split; [symmetry; exact Hit|].
+      split; [unfold nb, buckets; cbn [mask new_table]; lia|].
+      split; [rewrite (new_table_capacity B T); lia|].
+      split; [intros _; reflexivity|].
+      split; [|right; left; split; [reflexivity|exact Hfr]].
+      intros Enb. assert (Hm : mask t = 0) by (unfold nb, buckets in Enb; cbn [mask new_table] in Enb; lia).
+      split; [symmetry; exact (safe_singleton t Hsafe Hm)|].
+      destruct Hfr as [(_ & ->) | (C & _)]; [reflexivity|contradiction].
+    - fold (ctb B tsize talign ms).
+      destruct (ctb B tsize talign ms) as [mb|] eqn:Ectb;
+        [|exact (shrink_noop t min_size alloc_refuses Hsafe HA Hnz)].
+      change (buckets T t) with (nb T t).
+      destruct (Z.ltb_spec mb (zn (nb T t))) as [Hlt|Hge];
+        [|exact (shrink_noop t min_size alloc_refuses Hsafe HA Hnz)].
+      (* a smaller table: t is not the singleton *)
+      pose proof (capacity_to_buckets_spec (zn GW) ms (lay_size B tsize talign) (ctrl_align B tsize talign)
+                    (sac_GW_Z B HW) ltac:(lia) ltac:(rewrite lay_size_eq; lia)) as Hspec.
+      fold (ctb B tsize talign ms) in Hspec. rewrite Ectb in Hspec.
+      destruct Hspec as (_ & (k' & Hk' & Emb) & _).
+      assert (Hmb4 : (4 <= mb)%Z).
+      { rewrite Emb. change 4%Z with (2 ^ 2)%Z. apply pow2_le_mono. lia. }
+      assert (Hm : mask t <> 0).
+      { intros C. unfold nb, buckets in Hlt. rewrite C in Hlt. change (zn 1) with 1%Z in Hlt. lia. }
+      pose proof (TOwn_allocated t HA Hm) as HAl.
+      pose proof (shrink_no_overflow t ms mb Hsafe HAl ltac:(lia) Ectb Hlt) as Hnov.
+      assert (Hbound : (Z.max (items t) (Z.min min_size (capacity T t)) <= ms)%Z) by (unfold ms; lia).
+      destruct (Z.eqb_spec (items t) 0) as [Hit|Hit].
+      + (* no element: a fresh table, then drop the old one *)
+        pose proof (fallible_with_capacity_spec B T HW tsize talign Hts Hta ms alloc_refuses Infallible Hms) as Hpost.
+        destruct (fallible_with_capacity B T tsize talign ms alloc_refuses Infallible)
+          as [[[[nt|] evs] tr]|er]; cbn [bind].
+        * destruct tr; cbn [fwc_post] in Hpost; try contradiction.
+          destruct Hpost as (Hs & Hitn & Hocc & Hcapgl & Hcapeq & _ & Hhow).
+          destruct Hhow as [(C & _) | (_ & _ & HAn & Hctb & len & al & off & El & -> & Hv)]; [contradiction|].
+          destruct (drop_empty_table t Hsafe HA Hit) as (evs2 & E & Hfr).
+          rewrite E. cbn [bind negb shrink_post app].
+          assert (Enb : zn (nb T nt) = mb) by congruence.
+          split; [exact Hs|]. split; [right; exact HAn|].
+          split; [rewrite Hocc, (occupants_items0 B T HW t Hsafe Hit); apply Permutation_refl|].
+          split; [congruence|]. split; [unfold zn in *; lia|]. split; [lia|].
+          split; [intros (_ & C); unfold ms in Hnz; lia|].
+          split; [intros C; unfold zn in *; lia|].
+          right; right. exists len, al, off, evs2. repeat (split; [assumption || reflexivity|]). exact Hfr.
+        * exfalso. cbn [fwc_post] in Hpost. destruct evs; [|contradiction].
+          destruct tr; try contradiction; destruct Hpost as (C & _); discriminate C.
+        * destruct er; cbn [fwc_post shrink_post] in *; try contradiction.
+          -- exact (Hnov (proj2 Hpost)).
+          -- exact (proj1 (proj2 Hpost)).
+      + (* move the elements into a smaller table *)
+        pose proof (resize_inner_spec B T HW HB tsize talign Hts Hta hasher t ms alloc_refuses Infallible
+                      Hsafe HA ltac:(unfold ms in *; lia)) as H.
+        destruct (resize_inner B T tsize talign hasher t ms alloc_refuses Infallible)
+          as [[[[t' evs] tr] unw]|er]; cbn [bind].
+        * destruct tr as [| |len al]; cbn [resize_post] in H.
+          -- destruct unw; cbn [shrink_post].
+             ++ destruct H as (-> & Hex & _ & _ & Hevs). split; [reflexivity|]. split; assumption.
+             ++ destruct H as (_ & (Hs' & _) & Hperm & Hit' & Hc & _ & _ & aevs & fevs & Eevs & HAn & Hfr).
+                destruct HAn as [(C & _) | (_ & _ & HAn & Hctb & len & al & off & El & -> & Hv)]; [contradiction|].
+                assert (Enb : zn (nb T t') = mb) by congruence.
+                split; [exact Hs'|]. split; [right; exact HAn|]. split; [exact Hperm|]. split; [exact Hit'|].
+                split; [unfold zn in *; lia|]. split; [lia|].
+                split; [intros (C & _); contradiction|].
+                split; [intros C; unfold zn in *; lia|].
+                right; right. exists len, al, off, fevs. repeat (split; [assumption || reflexivity|]). exact Hfr.
+          -- exfalso. destruct H as (_ & _ & _ & C & _). discriminate C.
+          -- exfalso. destruct H as (_ & _ & _ & C & _). discriminate C.
+        * destruct er; cbn [resize_post shrink_post] in *; try contradiction.
+          -- exact (Hnov (proj2 H)).
+          -- exact (proj1 (proj2 H)).
+  Qed.
+
+  (* ---------------------------------------------------------------------------------------- *)
+  (* the results once more, in quantified form                                                  *)
+  (* ---------------------------------------------------------------------------------------- *)
+  (* for a request below 2^63 the only possible capacity overflow is that of the layout *)
+  Lemma CapOverflow_small t additional : SafeWF B T t -> (additional < 2 ^ 63)%Z ->
+    CapOverflow t additional ->
+    overflow_cond B tsize talign (Z.max (items t + additional) (z_cap (mask t) + 1)).
+  Proof.
+    intros Hsafe Hadd [C|C]; [|exact C]. exfalso.
+    destruct (safe_counts B T t Hsafe) as (Hi0 & Hg0 & Hsum & Hcapnb & Hnb62).
+    rewrite two_p_62 in Hnb62. rewrite two_p_63 in Hadd. rewrite two_p_64 in C. lia.
+  Qed.
+
+  Corollary insert_fail t hash value alloc_refuses er :
+    SafeWF B T t -> TOwn t ->
+    Raw.insert B T tsize talign needs_drop hasher true t hash value alloc_refuses = Fail er ->
+    (er = PanicCapacityOverflow /\
+     overflow_cond B tsize talign (Z.max (items t + 1) (z_cap (mask t) + 1))) \/
+    (er = AbortAlloc /\ alloc_refuses = true).
+  Proof.
+    intros Hsafe HA E. pose proof (insert_spec t hash value alloc_refuses Hsafe HA) as H.
+    rewrite E in H. destruct er; cbn [insert_post] in H; try contradiction.
+    - left. split; [reflexivity|]. apply (CapOverflow_small t 1 Hsafe); [rewrite two_p_63; lia|exact H].
+    - right. split; [reflexivity|exact H].
+  Qed.
+
+  Corollary insert_preserves t hash value alloc_refuses t' evs unw r :
+    SafeWF B T t -> TOwn t ->
+    Raw.insert B T tsize talign needs_drop hasher true t hash value alloc_refuses = Ok (t', evs, unw, r) ->
+    SafeWF B T t' /\ TOwn t' /\
+    (unw = false -> exists s, r = Some s /\ s < nb T t' /\ slot T t' s = Some value /\
+       Permutation (occupants T t') (value :: occupants T t) /\ items t' = (items t + 1)%Z) /\
+    (unw = true -> r = None /\
+       (exists dropped, Permutation (occupants T t) (occupants T t' ++ dropped)) /\
+       (exists e, In e (occupants T t) /\ hasher e = None)).
+  Proof.
+    intros Hsafe HA E. pose proof (insert_spec t hash value alloc_refuses Hsafe HA) as H.
+    rewrite E in H. destruct unw; cbn [insert_post] in H.
+    - destruct H as (-> & Hs & HA' & Hu). split; [exact Hs|]. split; [exact HA'|].
+      split; [discriminate|]. intros _. split; [reflexivity|]. exact (ReserveUnwind_sub _ _ _ Hu).
+    - destruct r as [s|]; [|contradiction].
+      destruct H as (Hs & HA' & Hlt & Hsl & _ & Hp & Hit & _).
+      split; [exact Hs|]. split; [exact HA'|]. split; [|discriminate].
+      intros _. exists s. repeat (split; [assumption || reflexivity|]). exact Hit.
+  Qed.
+
+  Corollary find_or_find_insert_slot_fail t hash P alloc_refuses er :
+    SafeWF B T t -> TOwn t ->
+    find_or_find_insert_slot B T tsize talign needs_drop hasher true t hash (pure_eq P) alloc_refuses = Fail er ->
+    (er = PanicCapacityOverflow /\
+     overflow_cond B tsize talign (Z.max (items t + 1) (z_cap (mask t) + 1))) \/
+    (er = AbortAlloc /\ alloc_refuses = true).
+  Proof.
+    intros Hsafe HA E. pose proof (find_or_find_insert_slot_spec t hash P alloc_refuses Hsafe HA) as H.
+    rewrite E in H. destruct er; cbn [foi_post] in H; try contradiction.
+    - left. split; [reflexivity|]. apply (CapOverflow_small t 1 Hsafe); [rewrite two_p_63; lia|exact H].
+    - right. split; [reflexivity|exact H].
+  Qed.
+
+  Corollary find_or_find_insert_slot_preserves t hash P alloc_refuses t1 evs unw r :
+    SafeWF B T t -> TOwn t ->
+    find_or_find_insert_slot B T tsize talign needs_drop hasher true t hash (pure_eq P) alloc_refuses
+      = Ok (t1, evs, unw, r) ->
+    SafeWF B T t1 /\ TOwn t1 /\
+    (unw = false ->
+       Permutation (occupants T t1) (occupants T t) /\ items t1 = items t /\
+       (0 < growth_left t1)%Z /\ mask t1 <> 0 /\
+       ((exists i e, r = Some (inl i) /\ i < nb T t1 /\ slot T t1 i = Some e /\ P e = true) \/
+        (exists s, r = Some (inr s) /\ s < nb T t1 /\ is_special (byte T t1 s) = true)) /\
+       ((0 < growth_left t)%Z -> t1 = t /\ evs = [])) /\
+    (unw = true -> r = None /\
+       (exists dropped, Permutation (occupants T t) (occupants T t1 ++ dropped)) /\
+       (exists e, In e (occupants T t) /\ hasher e = None)).
+  Proof.
+    intros Hsafe HA E. pose proof (find_or_find_insert_slot_spec t hash P alloc_refuses Hsafe HA) as H.
+    rewrite E in H. destruct unw; cbn [foi_post] in H.
+    - destruct H as (-> & Hs & HA' & Hu). split; [exact Hs|]. split; [exact HA'|].
+      split; [discriminate|]. intros _. split; [reflexivity|]. exact (ReserveUnwind_sub _ _ _ Hu).
+    - destruct r as [[i|s]|]; [| |contradiction].
+      + destruct H as ((Hs & HA' & Hp & Hit & Hg & Hm & _ & Hno) & Hi & e & He & HP).
+        split; [exact Hs|]. split; [exact HA'|]. split; [|discriminate]. intros _.
+        repeat (split; [assumption|]). split; [|exact Hno].
+        left. exists i, e. repeat (split; [assumption || reflexivity|]). exact HP.
+      + destruct H as ((Hs & HA' & Hp & Hit & Hg & Hm & _ & Hno) & Hi & Hsp).
+        split; [exact Hs|]. split; [exact HA'|]. split; [|discriminate]. intros _.
+        repeat (split; [assumption|]). split; [|exact Hno].
+        right. exists s. split; [reflexivity|]. split; assumption.
+  Qed.
+
+  Corollary shrink_to_fail t min_size alloc_refuses er :
+    SafeWF B T t -> TOwn t -> (0 <= min_size < 2 ^ 64)%Z ->
+    shrink_to B T tsize talign needs_drop drop_ok hasher t min_size alloc_refuses = Fail er ->
+    er = AbortAlloc /\ alloc_refuses = true.
+  Proof.
+    intros Hsafe HA Hmin E. pose proof (shrink_to_spec t min_size alloc_refuses Hsafe HA Hmin) as H.
+    rewrite E in H. destruct er; cbn [shrink_post] in H; try contradiction. split; [reflexivity|exact H].
+  Qed.
+
+  Corollary shrink_to_preserves t min_size alloc_refuses t' evs unw :
+    SafeWF B T t -> TOwn t -> (0 <= min_size < 2 ^ 64)%Z ->
+    shrink_to B T tsize talign needs_drop drop_ok hasher t min_size alloc_refuses = Ok (t', evs, unw) ->
+    SafeWF B T t' /\ TOwn t' /\ Permutation (occupants T t') (occupants T t) /\ items t' = items t /\
+    (forall e, ~ In (EvDrop e) evs).
+  Proof.
+    intros Hsafe HA Hmin E. pose proof (shrink_to_spec t min_size alloc_refuses Hsafe HA Hmin) as H.
+    rewrite E in H. destruct unw; cbn [shrink_post] in H.
+    - destruct H as (-> & _ & len & al & -> & _). split; [exact Hsafe|]. split; [exact HA|].
+      split; [apply Permutation_refl|]. split; [reflexivity|].
+      intros e [C|[C|[]]]; discriminate C.
+    - destruct H as (Hs & HA' & Hp & Hit & _ & _ & _ & _ & Hev).
+      split; [exact Hs|]. split; [exact HA'|]. split; [exact Hp|]. split; [exact Hit|].
+      assert (Hfree : forall fevs e, FreeOld B T tsize talign t fevs -> ~ In (EvDrop e) fevs).
+      { intros fevs e [(_ & ->) | (_ & l0 & a0 & o0 & _ & -> & _)]; [intros []|intros [C|[]]; discriminate C]. }
+      intros e. destruct Hev as [(_ & ->) | [(_ & Hfr) | (len & al & off & fevs & _ & _ & -> & Hfr)]].
+      + intros [].
+      + exact (Hfree evs e Hfr).
+      + intros [C|C]; [discriminate C|exact (Hfree fevs e Hfr C)].
+  Qed.
+
+  (* allocation_size is defined on every table that owns its block *)
+  Lemma allocation_size_total t : TOwn t ->
+    exists n, allocation_size B T tsize talign t = Ok n /\ (mask t = 0 -> n = 0%Z).
+  Proof.
+    intros HA. unfold allocation_size, is_singleton.
+    destruct (Nat.eqb_spec (mask t) 0) as [E|E].
+    - exists 0%Z. split; [reflexivity|intros _; reflexivity].
+    - destruct (TOwn_allocated t HA E) as (_ & len & al & off & El).
+      change (buckets T t) with (nb T t). rewrite El. exists len. split; [reflexivity|contradiction].
+  Qed.
 End RawOps.
 
 Print Assumptions reserve_rehash_spec.
@@ -572,3 +913,10 @@ Print Assumptions try_reserve_error.
 Print Assumptions find_or_find_insert_slot_spec.
 Print Assumptions insert_spec.
 Print Assumptions insert_no_alloc.
+Print Assumptions shrink_to_spec.
+Print Assumptions insert_fail.
+Print Assumptions insert_preserves.
+Print Assumptions find_or_find_insert_slot_fail.
+Print Assumptions find_or_find_insert_slot_preserves.
+Print Assumptions shrink_to_fail.
+Print Assumptions shrink_to_preserves.
